@@ -9,4 +9,6 @@ CO4 == [r \in R4 |-> IF r = 4 THEN 2 ELSE 1]
 K1 == {1}
 K2 == {1, 2}         \* two calls of Shutdown, overlapping or one after the other in every order the model allows
 NoExpiry == \A k \in Calls : ~expired[k]
+\* the idle close alone (no call of Shutdown at all): with the counter released before the write it closes a connection under a write
+NoShutdown == ~isClosed
 ====
